@@ -173,6 +173,12 @@ def module_terms(tier_quick):
         mods.append([st, SMALL[5]])
     for st in after_construct(SMALL):
         mods.append([st])
+    # an UNSIGNED right-hand side narrower than the target whose value comes from an operator that does not confine it to its own width
+    # in a naive evaluation (~x, reinterpretation of a negative value): the extension is by zeros
+    for rhs in (("u", "inv", c2), ("u", "as_unsigned", e), ("u", "as_unsigned", c3), ("u", "inv", c1), ("b", "^", ("u", "inv", c2), c1)):
+        for tgt in (t, u, ("slice", t, 1, 4, None), ("cat", u, t)):
+            mods.append([("assign", tgt, rhs)])
+            mods.append([("if", [(c1, [("assign", tgt, rhs)])], [("assign", tgt, d)])])
     return mods
 
 
